@@ -72,26 +72,8 @@ func runC01(c *Ctx) {
 	}
 	c.R.Floor(r2, 8)
 
-	// R3: match policy <-> table agreement
 	const r3 = "C01.R3 match policy selects the table consistently"
-	fi := brk + "syncInitSubscription"
-	isPfx, isWc := `^\(%match == "prefix"\)$`, `^\(%match == "wildcard"\)$`
-	c.Guard(r3, fi, "insert into prefix table", `^mapupdate:%b\.pfxTopicSubscription\[%topic\]=`, 1, clause("match == prefix", T(isPfx)))
-	c.Guard(r3, fi, "insert into wildcard table", `^mapupdate:%b\.wcTopicSubscription\[%topic\]=`, 1, clause("match == wildcard", T(isWc)))
-	c.Guard(r3, fi, "insert into exact table", `^mapupdate:%b\.topicSubscription\[%topic\]=`, 1,
-		clause("match != prefix", F(isPfx)), clause("match != wildcard", F(isWc)))
-	fd := brk + "syncDelSubscription"
-	dPfx, dWc := `^\(%sub\.match == "prefix"\)$`, `^\(%sub\.match == "wildcard"\)$`
-	c.Guard(r3, fd, "delete from prefix table", `^call:builtin:delete\(%b\.pfxTopicSubscription, %sub\.topic\)$`, 1, clause("sub.match == prefix", T(dPfx)))
-	c.Guard(r3, fd, "delete from wildcard table", `^call:builtin:delete\(%b\.wcTopicSubscription, %sub\.topic\)$`, 1, clause("sub.match == wildcard", T(dWc)))
-	c.Guard(r3, fd, "delete from exact table", `^call:builtin:delete\(%b\.topicSubscription, %sub\.topic\)$`, 1,
-		clause("sub.match != prefix", F(dPfx)), clause("sub.match != wildcard", F(dWc)))
-	c.Has(r3, fd, "delete id->subscription", `^call:builtin:delete\(%b\.subscriptions, %sub\.id\)$`, 1)
-	// the subscription created for a table carries the policy it was filed under
-	c.Has(r3, fi, "new subscription records topic and match", `^call:router\.newSubscription\(call:wamp\.\(\*IDGen\)\.Next\(%b\.idGen\), %subscriber, %topic, %match\)$`, 3)
-	c.Fields(r3, "router.newSubscription", "subscription literal", "router.subscription", nil, map[string]string{
-		"id": `^%id$`, "topic": `^%topic$`, "match": `^%match$`,
-	}, 1)
+	ruleBrokerTables(c, r3)
 	c.R.Floor(r3, 12)
 
 	// R4: provenance in prepareEvent / publish
@@ -141,6 +123,7 @@ func runC01(c *Ctx) {
 
 	// R6: stable subscription id
 	const r6 = "C01.R6 subscription id generated only on table miss"
+	fi := brk + "syncInitSubscription"
 	c.Guard(r6, fi, "new id", `^call:wamp\.\(\*IDGen\)\.Next\(%b\.idGen\)$`, 3,
 		clause("table miss", F(`^%b\.(pfxT|wcT|t)opicSubscription\[%topic\],ok#1$`)))
 	ss := brk + "syncSubscribe"
@@ -150,26 +133,8 @@ func runC01(c *Ctx) {
 	}, 2)
 	c.R.Floor(r6, 7)
 
-	// R7: UNSUBSCRIBE acts only for a member
 	const r7 = "C01.R7 unsubscribe only for a member"
-	su := brk + "syncUnsubscribe"
-	member := clause("sender is a subscriber of the named subscription",
-		T(`^%b\.subscriptions\[%msg\.Subscription\],ok#0\.subscribers\[%subscriber\],ok#1$`))
-	exists := clause("subscription exists", T(`^%b\.subscriptions\[%msg\.Subscription\],ok#1$`))
-	for _, e := range [][2]string{
-		{"UNSUBSCRIBED reply", `^call:router\.\(\*broker\)\.trySend\(%b, %subscriber, new\(wamp\.Unsubscribed\)\)$`},
-		{"subscription deletion", `^call:router\.\(\*broker\)\.syncDelSubscription\(`},
-		{"meta events", `^call:router\.\(\*broker\)\.syncPubSubMeta\(`},
-		{"remove subscriber", `^call:builtin:delete\(.*\.subscribers, %subscriber\)$`},
-		{"remove from session's set", `^call:builtin:delete\(%b\.sessionSubIDSet`},
-	} {
-		c.Guard(r7, su, e[0], e[1], 1, exists, member)
-	}
-	c.Fields(r7, su, "no_such_subscription reply", "wamp.Error", fieldIs("Error", `^"wamp\.error\.no_such_subscription"$`), map[string]string{
-		"Request": `^%msg\.Request$`, "Type": `^call:wamp\.\(\*Unsubscribe\)\.MessageType\(%msg\)$`,
-	}, 1)
-	c.Fields(r7, su, "UNSUBSCRIBED literal", "wamp.Unsubscribed", nil, map[string]string{"Request": `^%msg\.Request$`}, 1)
-	c.Has(r7, su, "removes the sender, not another session", `^call:builtin:delete\(%b\.subscriptions\[%msg\.Subscription\],ok#0\.subscribers, %subscriber\)$`, 1)
+	ruleUnsubscribeMember(c, r7)
 	c.R.Floor(r7, 14)
 
 	// R8: the built-in publish filter: an event is allowed only after all four lists were consulted
@@ -202,4 +167,48 @@ func runC01(c *Ctx) {
 	const r9 = "C01.R9 departed sessions are removed from the broker"
 	ruleSessionRemoval(c, r9)
 	c.R.Floor(r9, 14)
+}
+
+func ruleBrokerTables(c *Ctx, r3 string) {
+	// R3: match policy <-> table agreement
+	fi := brk + "syncInitSubscription"
+	isPfx, isWc := `^\(%match == "prefix"\)$`, `^\(%match == "wildcard"\)$`
+	c.Guard(r3, fi, "insert into prefix table", `^mapupdate:%b\.pfxTopicSubscription\[%topic\]=`, 1, clause("match == prefix", T(isPfx)))
+	c.Guard(r3, fi, "insert into wildcard table", `^mapupdate:%b\.wcTopicSubscription\[%topic\]=`, 1, clause("match == wildcard", T(isWc)))
+	c.Guard(r3, fi, "insert into exact table", `^mapupdate:%b\.topicSubscription\[%topic\]=`, 1,
+		clause("match != prefix", F(isPfx)), clause("match != wildcard", F(isWc)))
+	fd := brk + "syncDelSubscription"
+	dPfx, dWc := `^\(%sub\.match == "prefix"\)$`, `^\(%sub\.match == "wildcard"\)$`
+	c.Guard(r3, fd, "delete from prefix table", `^call:builtin:delete\(%b\.pfxTopicSubscription, %sub\.topic\)$`, 1, clause("sub.match == prefix", T(dPfx)))
+	c.Guard(r3, fd, "delete from wildcard table", `^call:builtin:delete\(%b\.wcTopicSubscription, %sub\.topic\)$`, 1, clause("sub.match == wildcard", T(dWc)))
+	c.Guard(r3, fd, "delete from exact table", `^call:builtin:delete\(%b\.topicSubscription, %sub\.topic\)$`, 1,
+		clause("sub.match != prefix", F(dPfx)), clause("sub.match != wildcard", F(dWc)))
+	c.Has(r3, fd, "delete id->subscription", `^call:builtin:delete\(%b\.subscriptions, %sub\.id\)$`, 1)
+	// the subscription created for a table carries the policy it was filed under
+	c.Has(r3, fi, "new subscription records topic and match", `^call:router\.newSubscription\(call:wamp\.\(\*IDGen\)\.Next\(%b\.idGen\), %subscriber, %topic, %match\)$`, 3)
+	c.Fields(r3, "router.newSubscription", "subscription literal", "router.subscription", nil, map[string]string{
+		"id": `^%id$`, "topic": `^%topic$`, "match": `^%match$`,
+	}, 1)
+}
+
+func ruleUnsubscribeMember(c *Ctx, r7 string) {
+	// R7: UNSUBSCRIBE acts only for a member
+	su := brk + "syncUnsubscribe"
+	member := clause("sender is a subscriber of the named subscription",
+		T(`^%b\.subscriptions\[%msg\.Subscription\],ok#0\.subscribers\[%subscriber\],ok#1$`))
+	exists := clause("subscription exists", T(`^%b\.subscriptions\[%msg\.Subscription\],ok#1$`))
+	for _, e := range [][2]string{
+		{"UNSUBSCRIBED reply", `^call:router\.\(\*broker\)\.trySend\(%b, %subscriber, new\(wamp\.Unsubscribed\)\)$`},
+		{"subscription deletion", `^call:router\.\(\*broker\)\.syncDelSubscription\(`},
+		{"meta events", `^call:router\.\(\*broker\)\.syncPubSubMeta\(`},
+		{"remove subscriber", `^call:builtin:delete\(.*\.subscribers, %subscriber\)$`},
+		{"remove from session's set", `^call:builtin:delete\(%b\.sessionSubIDSet`},
+	} {
+		c.Guard(r7, su, e[0], e[1], 1, exists, member)
+	}
+	c.Fields(r7, su, "no_such_subscription reply", "wamp.Error", fieldIs("Error", `^"wamp\.error\.no_such_subscription"$`), map[string]string{
+		"Request": `^%msg\.Request$`, "Type": `^call:wamp\.\(\*Unsubscribe\)\.MessageType\(%msg\)$`,
+	}, 1)
+	c.Fields(r7, su, "UNSUBSCRIBED literal", "wamp.Unsubscribed", nil, map[string]string{"Request": `^%msg\.Request$`}, 1)
+	c.Has(r7, su, "removes the sender, not another session", `^call:builtin:delete\(%b\.subscriptions\[%msg\.Subscription\],ok#0\.subscribers, %subscriber\)$`, 1)
 }
